@@ -399,7 +399,7 @@ class Ctx(object):
         cov['obligations'] = nobl
         cov['proof_files'] = deps
         bad = forbidden_scan(deps)
-        ok, log = coq_build([rel + 'o'] + list(extra_targets))
+        ok, log = coq_build([rel + 'o', 'Lib/Cases.vo'] + list(extra_targets))
         if not ok:
             self.proof_ok = False
             cov['discharged'] = 0
